@@ -13,7 +13,11 @@ mod example_list_f32;
 pub struct JSONArrayOfFloats;
 impl JSONArrayOfFloats {
     pub fn parse_as_list_f64(json : String) -> Result<Vec<f64>, String> {
-        let items = RawUnprocessedJSONArray::split_into_vector_of_strings(json).unwrap();
+        let boxed_items = RawUnprocessedJSONArray::split_into_vector_of_strings(json);
+        if boxed_items.is_err() {
+            return Err(boxed_items.err().unwrap());
+        }
+        let items = boxed_items.unwrap();
         let mut list: Vec<f64> = vec![];
         for item in items {
             let boxed_parse = item.parse::<f64>();
@@ -47,7 +51,11 @@ impl JSONArrayOfFloats {
     }
 
     pub fn parse_as_list_f32(json : String) -> Result<Vec<f32>, String> {
-        let items = RawUnprocessedJSONArray::split_into_vector_of_strings(json).unwrap();
+        let boxed_items = RawUnprocessedJSONArray::split_into_vector_of_strings(json);
+        if boxed_items.is_err() {
+            return Err(boxed_items.err().unwrap());
+        }
+        let items = boxed_items.unwrap();
         let mut list: Vec<f32> = vec![];
         for item in items {
             let boxed_parse = item.parse::<f32>();
